@@ -17,6 +17,7 @@ mod exec;
 mod d4;
 mod gen;
 mod json;
+mod miri;
 mod model;
 mod props;
 mod wire;
